@@ -797,6 +797,16 @@ fn boxed_programs() -> Vec<(&'static str, String)> {
     }
     v
 }
+/// programs whose live heap objects have to be a KNOWN number after every sample and that must keep running: a constructor
+/// fed from a variable that outlives the derived value (seed C12m) -- the new cell shares the variable's boxes, so the argument
+/// has to take references of its own, or the variable's boxes are freed under it.  Each runs in a child process (a use after
+/// release panics in the VM).
+fn boxed_expect_programs() -> Vec<(&'static str, String, usize)> {
+    vec![
+        ("constructor over a global list, derived value dies every sample", "type rec List = Nil | Cons(float, List)\nlet a = Cons(2.0, Nil)\nfn dsp() -> float {\n    let l = Cons(1.0, a)\n    1.0\n}\n".to_string(), 1),
+        ("constructor over a global list that is read afterwards", "type rec List = Nil | Cons(float, List)\nlet a = Cons(2.0, Cons(3.0, Nil))\nfn second(l){\n    match l {\n        Nil => 0.0,\n        Cons(h, t) => h\n    }\n}\nfn dsp() -> float {\n    let s = { let l = Cons(1.0, a)\n              1.0 }\n    let t = { let m = Cons(4.0, a)\n              2.0 }\n    s + t\n}\n".to_string(), 2),
+    ]
+}
 fn heap_after(src: &str, n: usize) -> Result<(usize, usize), String> {
     use mimium_lang::{Config, ExecContext};
     let mut ctx = ExecContext::new([].into_iter(), None, Config::default());
@@ -897,6 +907,18 @@ fn main() {
     }
     if args.get(1).map(|s| s.as_str()) == Some("boxed-search") || args.get(1).map(|s| s.as_str()) == Some("boxed-run") {
         let only: Option<usize> = args.get(2).and_then(|s| s.parse().ok());
+        if let (true, Some(o)) = (args[1] == "boxed-run", only) {
+            if o >= 1000 {
+                let progs = boxed_expect_programs();
+                let (name, _src, want) = &progs[(o - 1000).min(progs.len() - 1)];
+                let exe = std::env::current_exe().unwrap();
+                let out = std::process::Command::new(&exe).args(["boxed-expect", &(o - 1000).to_string()]).output().unwrap();
+                let so = String::from_utf8_lossy(&out.stdout).trim().to_string();
+                let ok = out.status.success() && so == format!("COUNT {want} {want}");
+                println!("{} program={name:?} expected {want} live heap objects after 64 and 128 samples, got `{so}` (exit {:?})", if ok { "HOLDS" } else { "FAILS" }, out.status.code());
+                return;
+            }
+        }
         for (i, (name, src)) in boxed_programs().iter().enumerate() {
             if let Some(o) = only { if o != i { continue; } }
             let r = heap_after(src, 64);
@@ -910,7 +932,27 @@ fn main() {
                 return;
             }
         }
-        println!("NONE tried={}", boxed_programs().len());
+        // the programs with a known count, each in a child process
+        let exe = std::env::current_exe().unwrap();
+        for (i, (name, _src, want)) in boxed_expect_programs().iter().enumerate() {
+            if args[1] == "boxed-run" { break; }
+            let out = std::process::Command::new(&exe).args(["boxed-expect", &i.to_string()]).output().unwrap();
+            let so = String::from_utf8_lossy(&out.stdout).trim().to_string();
+            if !out.status.success() || so != format!("COUNT {want} {want}") {
+                println!("FOUND index={} value={name:?} clause=C12[no heap object is used after it has been released; live heap objects are the same after sample N and 2N] expected {want} live heap objects after 64 and after 128 samples, got `{so}` (exit {:?})", 1000 + i, out.status.code());
+                return;
+            }
+        }
+        println!("NONE tried={}", boxed_programs().len() + boxed_expect_programs().len());
+        return;
+    }
+    if args.get(1).map(|s| s.as_str()) == Some("boxed-expect") {
+        let i: usize = args.get(2).and_then(|s| s.parse().ok()).unwrap_or(0);
+        let progs = boxed_expect_programs();
+        match heap_after(&progs[i.min(progs.len() - 1)].1, 64) {
+            Ok((a, b)) => println!("COUNT {a} {b}"),
+            Err(e) => println!("ERR {e}"),
+        }
         return;
     }
     if args.get(1).map(|s| s.as_str()) == Some("alias-scope") {
@@ -1055,8 +1097,11 @@ fn main() {
         // known finding F13 (C12): programs whose live closure / heap object counts grow with every dsp call
         let progs: Vec<(&str, &str)> = vec![
             ("closure bound by let and called", "fn dsp(){\n    let x = 9.0\n    let f = | | { x - 5.0 }\n    f()\n}\n"),
+            // F30: a named function passed as an argument (a closure and a heap wrapper are made for the call)
+            ("named function passed as an argument", "fn hof(f, x){ f(x) }\nfn tri(y){ y*3.0 }\nfn dsp(){\n    hof(tri, 4.0)\n}\n"),
         ];
-        for (desc, src) in progs {
+        let only: usize = args.get(2).and_then(|s| s.parse().ok()).unwrap_or(0);
+        for (desc, src) in progs.into_iter().skip(only).take(1) {
             match live_counts(src, 64) {
                 Ok(((c1, h1), (c2, h2))) => {
                     if c1 != c2 || h1 != h2 {
